@@ -337,6 +337,46 @@ func TestDecorated(t *testing.T) {
 	})
 }
 
+// TestLongStrings: string literals longer than any buffer of the reader (64 KiB and its doubles), made of escapes,
+// starting at every alignment, so that whatever piece boundaries the reader uses fall on every position of an escape.
+func TestLongStrings(t *testing.T) {
+	rec := ev.New(prop, "long-strings", "deterministic: one string of 66-140 KB built from units {a, backslash-quote, two backslashes, backslash+two backslashes+quote, comment markers} at 4 alignments, "+
+		"with and without comments around it, read whole and in 4 KiB / odd pieces; oracle as in decorated-documents; all non-trivial")
+	rec.Exhaustive()
+	units := []string{"a", "\\\"", "\\\\", "\\\\\\\"", "*/ // /*", "\\\\a"}
+	i := 0
+	for _, u := range units {
+		for _, total := range []int{66000, 70001, 131071, 140000} {
+			for align := 0; align < 4; align++ {
+				for _, deco := range []bool{false, true} {
+					i++
+					if i%ev.Shards() != ev.Shard() {
+						continue
+					}
+					str := strings.Repeat(u, total/len(u))
+					c := Case{Val: jsonref.V{K: "arr", Elem: []jsonref.V{{K: "num", Raw: "1"}, {K: "str", Str: str}, {K: "str", Str: "tail\\"}}}, Mode: i % 2}
+					nt := len(jsonref.Tokens(c.Val, c.Mode))
+					c.Plain, c.Gaps = make([]string, nt+1), make([]string, nt+1)
+					c.Plain[0], c.Gaps[0] = strings.Repeat(" ", align), strings.Repeat(" ", align)
+					if deco {
+						c.Gaps[1], c.Gaps[nt] = "/* c */", " // end"
+					}
+					c.SegKind, c.Seg = []int{0, 2, 4, 2}[align], []int{4096, 4095, 65536, 7}
+					err := ev.Try(func() error { _, e := runCase(c); return e })
+					rec.Case(true, ev.Hash(u, total, align, deco), nil, func() any {
+						return map[string]any{"unit": u, "string_bytes": len(str), "align": align, "decorated": deco}
+					})
+					if err != nil {
+						err = fmt.Errorf("string of %d x %q at alignment %d: %v", total/len(u), u, align, err)
+						p := ev.Fail(prop, "decorated-documents", c, err)
+						t.Fatalf("%v (replay %s)", clip(err.Error()), p)
+					}
+				}
+			}
+		}
+	}
+}
+
 func replayers() map[string]ev.Replayer {
 	f := func(raw stdjson.RawMessage) error {
 		var c Case
